@@ -214,6 +214,12 @@ pub fn verify(case: &Value, scratch: &Path, idx: usize) -> Value {
                 break;
             }
         };
+        let mut layout = layout;
+        if let Some(kind) = case.get("mem_edit").and_then(|v| v.as_str()) {
+            let before = layout.metadata.clone();
+            o["mem_edit_applied"] = json!(crate::util::mem_edit(&mut layout, kind));
+            o["mem_edit_changed_value"] = json!(before != layout.metadata);
+        }
         let keymap: HashMap<KeyId, PublicKey> = pairs.iter().cloned().collect();
         let t0 = now_ns();
         let r = guarded(|| in_toto_verify(&layout, keymap, &link_dir, step_name));
